@@ -222,7 +222,9 @@ class ClientMetadataClaims(BaseClaims):
     def _validate_uri(self, key, uri=None):
         if uri is None:
             uri = self.get(key)
-        if uri and not is_valid_url(uri, fragments_allowed=False):
+        if uri and (
+            not isinstance(uri, str) or not is_valid_url(uri, fragments_allowed=False)
+        ):
             raise InvalidClaimError(key)
 
     @classmethod
@@ -239,6 +241,8 @@ class ClientMetadataClaims(BaseClaims):
             def _validate_scope(claims, value):
                 if not value:
                     return True
+                if not isinstance(value, (str, list, tuple, set)):
+                    return False
                 scopes = set(scope_to_list(value))
                 return scopes_supported.issuperset(scopes)
 
@@ -250,7 +254,10 @@ class ClientMetadataClaims(BaseClaims):
             def _validate_response_types(claims, value):
                 # If omitted, the default is that the client will use only the "code"
                 # response type.
-                response_types = set(value) if value else {"code"}
+                try:
+                    response_types = set(value) if value else {"code"}
+                except TypeError:
+                    return False
                 return response_types_supported.issuperset(response_types)
 
             options["response_types"] = {"validate": _validate_response_types}
@@ -261,7 +268,10 @@ class ClientMetadataClaims(BaseClaims):
             def _validate_grant_types(claims, value):
                 # If omitted, the default behavior is that the client will use only
                 # the "authorization_code" Grant Type.
-                grant_types = set(value) if value else {"authorization_code"}
+                try:
+                    grant_types = set(value) if value else {"authorization_code"}
+                except TypeError:
+                    return False
                 return grant_types_supported.issuperset(grant_types)
 
             options["grant_types"] = {"validate": _validate_grant_types}
